@@ -27,7 +27,13 @@ func c15EndToEnd(c *Ctx, idx int) {
 	rng := c.Rng(300000 + idx)
 	total := 3 + rng.Intn(2)
 	c.Step("c15 end-to-end idx=%d hosts=%d", idx, total)
-	bed, err := px.NewBed(px.BedConfig{Hosts: total, NumConns: 1, Keyspaces: []string{"ks1"}, RefreshWindow: 20 * time.Millisecond, ReconnectBase: time.Millisecond, ReconnectMax: 3 * time.Millisecond})
+	// every third history has a refresh window long enough for the control connection to be lost inside it
+	lossInWindow := idx%3 == 2
+	window := 20 * time.Millisecond
+	if lossInWindow {
+		window = 300 * time.Millisecond
+	}
+	bed, err := px.NewBed(px.BedConfig{Hosts: total, NumConns: 1, Keyspaces: []string{"ks1"}, RefreshWindow: window, ReconnectBase: time.Millisecond, ReconnectMax: 3 * time.Millisecond})
 	if err != nil {
 		r.Inconc("c15 e2e: cannot start bed: " + err.Error())
 		return
@@ -70,7 +76,11 @@ func c15EndToEnd(c *Ctx, idx int) {
 			op = "remove"
 		}
 		badRefresh := rng.Intn(3) == 0
-		shape = append(shape, fmt.Sprintf("%s%d%s", op, h, map[bool]string{true: "+misreported-local-address", false: ""}[badRefresh]))
+		killCtl := lossInWindow && (s == 0 || rng.Intn(2) == 0)
+		if killCtl {
+			badRefresh = false
+		}
+		shape = append(shape, fmt.Sprintf("%s%d%s%s", op, h, map[bool]string{true: "+misreported-local-address", false: ""}[badRefresh], map[bool]string{true: "+control-connection-lost-inside-the-refresh-window", false: ""}[killCtl]))
 		if badRefresh {
 			// in the refresh that announces this change the control node reports a foreign rpc_address for itself, once
 			fired := false
@@ -92,19 +102,41 @@ func c15EndToEnd(c *Ctx, idx int) {
 		}
 		before := peersReads()
 		listed[h] = op == "add"
+		if lossInWindow {
+			// in these histories a node that leaves is really gone (and one that joins is started first): the control
+			// connection looks for a new node while the change is fresh, and a node that is up always lists itself
+			if op == "remove" {
+				bed.Cluster.Hosts[h-1].Stop()
+			} else if err := bed.Cluster.Hosts[h-1].Start(false); err != nil {
+				r.Inconc("c15 e2e: cannot restart a host: " + err.Error())
+				return
+			}
+		}
 		bed.Cluster.SetListed(h, listed[h])
 		ct := primitive.TopologyChangeTypeRemovedNode
 		if op == "add" {
 			ct = primitive.TopologyChangeTypeNewNode
 		}
 		bed.Cluster.Emit(&message.TopologyChangeEvent{ChangeType: ct, Address: &primitive.Inet{Addr: net.ParseIP(bed.Cluster.HostIP(h)), Port: int32(bed.Cluster.Port)}})
+		if killCtl {
+			time.Sleep(30 * time.Millisecond) // the event has been read and the refresh is pending
+			for _, x := range bed.Cluster.EstablishedControlConns() {
+				x.Kill(false)
+			}
+			r.Obs("e2e_control_lost_inside_refresh_window", 1)
+		}
 		// the proxy re-reads the tables successfully at least once after the announcement (a failed refresh is followed by a
 		// control reconnect, which reads them again)
 		ok := waitFor(func() bool { return peersReads() > before && len(bed.Cluster.EstablishedControlConns()) >= 1 }, 20*time.Second)
 		bed.Cluster.SystemOverride = nil
 		if !ok {
-			r.Inconc("c15 e2e: the tables were not re-read after a topology event")
-			return
+			if len(bed.Cluster.EstablishedControlConns()) == 0 {
+				r.Inconc("c15 e2e: no control connection after a topology event")
+				return
+			}
+			// a control connection is up, the change was announced on it, and 20 s (the refresh window is well under half a
+			// second) passed without the tables being read again: the plan is compared with the membership all the same
+			r.Obs("e2e_tables_not_reread_after_event", 1)
 		}
 		time.Sleep(40 * time.Millisecond)
 		// oracle: a fresh plan yields exactly the listed hosts, each once
